@@ -148,7 +148,8 @@ def flow_text(marks: dict, customs: dict, completion=None, rng=None,
     others = sorted({
         tok.split(':')[0].rstrip('?')
         for ln in lines for tok in ln.replace('=>', ' ').split()
-        if not tok.startswith(task + ':') and tok.rstrip('?') != task})
+        if not tok.startswith(task + ':') and tok.rstrip('?') != task
+        and tok != '!' + task})
     body = '\n'.join('            ' + ln for ln in lines)
     out = [
         '[scheduler]',
